@@ -48,7 +48,7 @@ func (k Keeper) RequestModuleService(
 		return sdkerrors.Wrap(types.ErrUnknownRequestContext, reqContextID.String())
 	}
 
-	_, totalPrices, _, err := k.FilterServiceProviders(
+	providers, totalPrices, _, err := k.FilterServiceProviders(
 		ctx,
 		requestContext.ServiceName,
 		requestContext.Providers,
@@ -58,6 +58,16 @@ func (k Keeper) RequestModuleService(
 	)
 	if err != nil {
 		return err
+	}
+
+	// the request below is issued to the provider of the module service and carries its price:
+	// it must be the provider that was charged for
+	if len(providers) == 0 {
+		return sdkerrors.Wrapf(
+			types.ErrInvalidModuleService,
+			"provider of module service %s is not available or its price exceeds the service fee cap",
+			requestContext.ServiceName,
+		)
 	}
 
 	if err := k.DeductServiceFees(ctx, consumer, totalPrices); err != nil {
